@@ -236,7 +236,11 @@ func (st *State) atomicInterference(addr *AddrV) {
 func (st *State) powReal(x, y *Term) *Term {
 	f := st.declareFun("pow_real", []Sort{SReal, SReal}, SReal)
 	r := App(SReal, f, x, y)
-	st.assume(Implies(Gt(x, RealLit(0)), Gt(r, RealLit(0))))
+	if !st.declared["axiom:pow_real"] {
+		st.declared["axiom:pow_real"] = true
+		a, b := Const("a!qpow", SReal), Const("b!qpow", SReal)
+		st.assume(Forall([]*Term{a, b}, Implies(Gt(a, RealLit(0)), Gt(App(SReal, f, a, b), RealLit(0))), App(SReal, f, a, b)))
+	}
 	return r
 }
 
